@@ -933,6 +933,8 @@ func main() {
 	}
 	for a := 0; a < nOps; a++ {
 		items = append(items, fmt.Sprintf("seq|0|%d|%d", ddepth, a))
+		// sizes just above a page and not a multiple of one (an implementation that rounds its buffer up holds back more than configured)
+		items = append(items, fmt.Sprintf("seq|4097|%d|%d", ddepth, a), fmt.Sprintf("seq|5000|%d|%d", ddepth, a))
 	}
 	// short sequences (shorter than the item prefixes)
 	for _, size := range sizes {
